@@ -383,7 +383,21 @@ def campaign(ex):
     one(ex)
 
 
+def limit_examples():
+    """Texts whose UTF-8 length sits on the library's input limit (49,149 bytes) and on 2^14 / 2^15 / 2^16 - 1
+    code units: Python must accept and reject exactly what the library accepts and rejects, with equal morphemes."""
+    exs = []
+    for unit, w in (("a", 1), ("あ", 3), ("𠮷a", 5), ("é", 2)):
+        for target in (49147, 49148, 49149, 49150, 49152, 16384, 32767, 32768):
+            n = target // w
+            text = unit * n + "x" * (target - n * w)
+            exs.append({"world": 0, "ops": [("tokenize", 0, text, None, False, False), ("tokenize", 0, "あa", "A", True, False)]})
+    return exs
+
+
 try:
+    for _ex in limit_examples():
+        one(_ex)
     campaign()
     STATE["failure"] = None
     finish(0)
